@@ -9,6 +9,9 @@ NOTE = ('Trusted base: qtmodel (fixed-capacity executable stand-ins for the Qt c
 CLAIMS = {
  'C01': ('model_checking', 'For every handler tree within the bound (kinds, parameters, verdicts, scoped flags, shared handlers and the incoming message state are solver variables) the real Pipeline::process and the per-kind process() adapters deliver to every recording sink exactly what a reference interpreter written from the statement predicts, and leave exactly the predicted residual message state.', '4/C01'),
  'C12': ('model_checking', 'parseFormatSpec for every spec string and applyPadding for every value/fill/align/width/mode within the bounds are decided against the documented grammar; parsePattern+format are decided end to end on 13 concrete pattern skeletons with fully symbolic values (every UTF-16 unit, incl. U+200B, %, {, }, surrogates) against a reference formatter written from the docs. Found and confirmed the in-band U+200B marker defect, now fixed.', '4/C12'),
+ 'C13': ('model_checking', 'For every message / attribute set within the bounds the real JsonFormatter::format + LogMessage::allAttributes hand the serializer exactly one object with the 8 built-in fields and every custom attribute, values intact, and request compact output iff configured. The JSON TEXT (syntax, escaping, one line) is Qt-internal and assumed by contract - stated in evidence.outside.', '4/C13'),
+ 'C15': ('model_checking', 'For every rule pattern / category / type within the bounds the real CategoryFilter (constructor, parseRules, matches, filter) agrees with a glob-based ordered-rules reference; the regular-expression engine is the conformance-tested regex model (closed form for the rule-line expression, position-automaton for the escaped category expressions).', '4/C15'),
+ 'C18': ('model_checking', 'For every message, category case and attribute set within the bounds the event object built by the real SentryFormatter::format has the required fields, level mapping, logger rule, fingerprint and routes every custom attribute to exactly one slot; id / timestamp text forms are Qt (assumed).', '4/C18'),
  'C16': ('model_checking', 'For all (type,threshold) pairs, all text sequences / counter states within the bounds, the solver shows the real LevelFilter, DuplicateFilter and SeqNumberAttr agree with reference automata written from the statement; inductive one-step harnesses from an arbitrary state extend the sequence claim to any length. RegExpFilter is decided only up to the regex model (Qt/PCRE assumed).', '4/C16'),
  'C17': ('model_checking', 'For every call sequence within the bound, and for ONE call from every sorted list (inductive step), the real SortedPipeline code (with libstdc++ find_if compiled from source) yields exactly the stable-by-class-rank list; found and confirmed the reversed-range defect, now fixed.', '4/C17'),
 }
